@@ -126,6 +126,12 @@ def jobs_c17(tier, known):
     bu_plan = {"quick": {"small": (A_SW, 1, 0, 0), "medium": (A_SW, 1, 0, 0), "large": None},
                "thorough": {"small": (A_R2NB, 1, A_SW, 2), "medium": (A_R2NB, 1, A_SW, 2), "large": (A_SW, 1, 0, 0)}}
     js += tiered("C17", tier, known, bu_plan, props=1, busets=[b for b in BUSETS if b != ALLBU], modes=["d1f1", "d0f0"] if tier == "quick" else MODES)
+    # S20: a halfface used by two live cells (the kernel allows it without topology check). All other E1 jobs exclude such states (the
+    # incidence structure stores one cell per halfface); for C17 the swaps are run on it because "pure relabeling" is still decidable
+    for kernel in ("poly", "tet"):
+        for mode in MODES:
+            for bu in BUSETS:
+                js.append(mesh_job("C17", kernel, "S20", cfgstr(mode, bu, 1), A_SWAP, 2 if tier == "quick" else 3, bcfg="fast", deadline=300 if tier == "quick" else 600, known=known))
     return js
 
 
